@@ -1,6 +1,11 @@
 #!/bin/sh
 # Offline build of the harness (MANIFEST.setup_cmd). Uses only the local cargo cache.
+# Also builds `plain` (the digest grid against /repo WITHOUT the verif feature) and checks that the hooks-on build that
+# every check uses behaves bit-identically on that grid (hooks are pass-throughs): writes hooks_transparency.json.
 DIR=$(cd "$(dirname "$0")" && pwd)
 export CARGO_NET_OFFLINE=true
+export VERIF_DIR="$DIR"
 mkdir -p "$DIR/.scratch" "$DIR/evidence" "$DIR/replays"
-cd "$DIR/mc" && cargo build --release --offline
+cd "$DIR/mc" && cargo build --release --offline || exit 2
+cd "$DIR/plain" && CARGO_TARGET_DIR="$DIR/mc/target" cargo build --release --offline || exit 2
+"$DIR/mc/target/release/mc" HOOKS "$DIR/mc/target/release/plain" || exit 2
